@@ -400,6 +400,10 @@ def perm_suite(tier, seed):
                 v0i, v0 = views[0]
                 for vi, v in views[1:]:
                     for k in sorted(set(v0) | set(v)):
+                        # real calls exist only for the methods that got a real method<> in the driver, which depends on
+                        # the order of the method catalog; the walk ('disp') and 'next' lines exist for every method
+                        if k.startswith(('call ', 'resolve ')) and (k not in v0 or k not in v):
+                            continue
                         if v0.get(k) != v.get(k):
                             fails.append('registration order %d vs order %d: %s is %s vs %s' % (v0i, vi, k, v0.get(k), v.get(k)))
                             if fv is None: fv = variants[vi]
